@@ -15,6 +15,16 @@ class Ctx:
         if not self.r.converged:
             raise AnalysisError("parameter-type fixpoint did not converge")
         self._flow = None
+        self.deferred = []      # AnalysisErrors of single rules: reported after the other rules had their say
+
+    def attempt(self, fn, *args, default=None, **kw):
+        """Run one rule; a vanished anchor breaks that rule only.  The run still ends as analysis-broken
+        (exit 2) unless another rule found a violation, which is reported first (exit 1)."""
+        try:
+            return fn(*args, **kw)
+        except AnalysisError as e:
+            self.deferred.append(str(e))
+            return default
 
     @property
     def flow(self):
